@@ -1,0 +1,282 @@
+//go:build verif
+
+// Verification-only call recorder. With the "verif" build tag AND the
+// environment variable GOART_VERIF_RECORD naming a directory, every tree a
+// constructor returns is wrapped in a transparent decorator that appends one
+// line per public call (arguments and results) to <dir>/rec-<pid>.ndjson.
+// Without the variable the constructors return the plain tree.
+
+package art
+
+import (
+	"bufio"
+	"encoding/hex"
+	"fmt"
+	"iter"
+	"math"
+	"os"
+	"strconv"
+	"strings"
+	"sync"
+
+	"golang.org/x/text/collate"
+)
+
+// verifRecording: the constructors consult the recorder (which stays off unless GOART_VERIF_RECORD is set).
+const verifRecording = true
+
+// VerifRecordMaxOps bounds the calls recorded per tree (a "Truncated" line marks the cut).
+var VerifRecordMaxOps = 1500
+
+var verifRec struct {
+	once sync.Once
+	mu   sync.Mutex
+	w    *bufio.Writer
+	next int
+}
+
+func verifRecOpen() bool {
+	verifRec.once.Do(func() {
+		dir := os.Getenv("GOART_VERIF_RECORD")
+		if dir == "" {
+			return
+		}
+		f, err := os.OpenFile(fmt.Sprintf("%s/rec-%d.ndjson", dir, os.Getpid()), os.O_CREATE|os.O_WRONLY|os.O_APPEND, 0o644)
+		if err != nil {
+			return
+		}
+		verifRec.w = bufio.NewWriterSize(f, 1<<16)
+		if n, err := strconv.Atoi(os.Getenv("GOART_VERIF_RECORD_MAX")); err == nil {
+			if n <= 0 {
+				n = math.MaxInt
+			}
+			VerifRecordMaxOps = n
+		}
+	})
+	return verifRec.w != nil
+}
+
+type verifRecorded[K any, V any] struct {
+	in   Tree[K, V]
+	id   int
+	ops  int
+	cut  bool
+	kenc func(K) string // key -> hex of its raw form
+	col  *collate.Collator
+}
+
+// verifWrap is called by every constructor.
+func verifWrap[K any, V any](family string, t Tree[K, V], bck BinaryComparableKey[K]) Tree[K, V] {
+	if !verifRecOpen() {
+		return t
+	}
+	r := &verifRecorded[K, V]{in: t}
+	var zero K
+	ktype := fmt.Sprintf("%T", zero)
+	switch family {
+	case "compound":
+		// the order of a compound tree is DEFINED by the caller's codec: its bytes are the key's identity
+		r.kenc = func(k K) string {
+			_, b := bck.Transform(k)
+			return hex.EncodeToString(b)
+		}
+	case "collation":
+		if ct, ok := any(t).(interface{ verifCollator() *collate.Collator }); ok {
+			r.col = ct.verifCollator()
+		}
+		r.kenc = verifKeyHex[K]
+	default:
+		r.kenc = verifKeyHex[K]
+	}
+	verifRec.mu.Lock()
+	verifRec.next++
+	r.id = verifRec.next
+	fmt.Fprintf(verifRec.w, "{\"op\":\"new\",\"id\":%d,\"family\":%q,\"ktype\":%q}\n", r.id, family, ktype)
+	verifRec.w.Flush()
+	verifRec.mu.Unlock()
+	return r
+}
+
+func (t *collationSortedTree[K, V]) verifCollator() *collate.Collator { return t.cok.c }
+
+func verifKeyHex[K any](k K) string {
+	switch x := any(k).(type) {
+	case string:
+		return hex.EncodeToString([]byte(x))
+	case []byte:
+		return hex.EncodeToString(x)
+	case []rune:
+		return hex.EncodeToString([]byte(string(x)))
+	case uint8:
+		return strconv.FormatUint(uint64(x), 16)
+	case uint16:
+		return strconv.FormatUint(uint64(x), 16)
+	case uint32:
+		return strconv.FormatUint(uint64(x), 16)
+	case uint64:
+		return strconv.FormatUint(x, 16)
+	case uint:
+		return strconv.FormatUint(uint64(x), 16)
+	case int8:
+		return strconv.FormatUint(uint64(int64(x)), 16)
+	case int16:
+		return strconv.FormatUint(uint64(int64(x)), 16)
+	case int32:
+		return strconv.FormatUint(uint64(int64(x)), 16)
+	case int64:
+		return strconv.FormatUint(uint64(x), 16)
+	case int:
+		return strconv.FormatUint(uint64(int64(x)), 16)
+	case float32:
+		return strconv.FormatUint(math.Float64bits(float64(x)), 16)
+	case float64:
+		return strconv.FormatUint(math.Float64bits(x), 16)
+	}
+	return "?" + fmt.Sprint(k)
+}
+
+// line writes one record; f adds the call's fields. Returns false once the tree's budget is spent.
+func (r *verifRecorded[K, V]) line(op string, f func(sb *strings.Builder)) {
+	verifRec.mu.Lock()
+	defer verifRec.mu.Unlock()
+	if r.cut {
+		return
+	}
+	r.ops++
+	if r.ops > VerifRecordMaxOps {
+		r.cut = true
+		fmt.Fprintf(verifRec.w, "{\"op\":\"Truncated\",\"id\":%d}\n", r.id)
+		verifRec.w.Flush()
+		return
+	}
+	var sb strings.Builder
+	fmt.Fprintf(&sb, "{\"op\":%q,\"id\":%d", op, r.id)
+	f(&sb)
+	sb.WriteString("}\n")
+	verifRec.w.WriteString(sb.String())
+	verifRec.w.Flush()
+}
+
+func (r *verifRecorded[K, V]) key(sb *strings.Builder, name string, k K) {
+	fmt.Fprintf(sb, ",%q:%q", name, r.kenc(k))
+	if r.col != nil {
+		// the collator's own sort key, through a buffer of the recorder's: the order the tree is specified against
+		var buf collate.Buffer
+		raw, _ := hex.DecodeString(r.kenc(k))
+		fmt.Fprintf(sb, ",%q:%q", name+"_ck", hex.EncodeToString(r.col.Key(&buf, raw)))
+	}
+}
+
+// args renders the arguments of a sequence method when the sequence is CREATED (the caller may reuse its buffers later).
+func (r *verifRecorded[K, V]) args(f func(sb *strings.Builder)) string {
+	var sb strings.Builder
+	f(&sb)
+	return sb.String()
+}
+
+func verifVal[V any](v V) string { return fmt.Sprintf("%v", v) }
+
+func (r *verifRecorded[K, V]) Insert(k K, v V) {
+	r.in.Insert(k, v)
+	sz := r.in.Size()
+	r.line("Insert", func(sb *strings.Builder) {
+		r.key(sb, "k", k)
+		fmt.Fprintf(sb, ",\"v\":%q,\"sz\":%d", verifVal(v), sz)
+	})
+}
+
+func (r *verifRecorded[K, V]) Search(k K) (V, bool) {
+	v, ok := r.in.Search(k)
+	sz := r.in.Size()
+	r.line("Search", func(sb *strings.Builder) {
+		r.key(sb, "k", k)
+		fmt.Fprintf(sb, ",\"found\":%v,\"v\":%q,\"sz\":%d", ok, verifVal(v), sz)
+	})
+	return v, ok
+}
+
+func (r *verifRecorded[K, V]) Delete(k K) bool {
+	ok := r.in.Delete(k)
+	sz := r.in.Size()
+	r.line("Delete", func(sb *strings.Builder) {
+		r.key(sb, "k", k)
+		fmt.Fprintf(sb, ",\"res\":%v,\"sz\":%d", ok, sz)
+	})
+	return ok
+}
+
+func (r *verifRecorded[K, V]) ends(op string, k K, v V, ok bool) {
+	sz := r.in.Size()
+	r.line(op, func(sb *strings.Builder) {
+		if ok {
+			r.key(sb, "k", k)
+		}
+		fmt.Fprintf(sb, ",\"found\":%v,\"v\":%q,\"sz\":%d", ok, verifVal(v), sz)
+	})
+}
+
+func (r *verifRecorded[K, V]) Minimum() (K, V, bool) {
+	k, v, ok := r.in.Minimum()
+	r.ends("Min", k, v, ok)
+	return k, v, ok
+}
+
+func (r *verifRecorded[K, V]) Maximum() (K, V, bool) {
+	k, v, ok := r.in.Maximum()
+	r.ends("Max", k, v, ok)
+	return k, v, ok
+}
+
+func (r *verifRecorded[K, V]) Size() int {
+	sz := r.in.Size()
+	r.line("Size", func(sb *strings.Builder) { fmt.Fprintf(sb, ",\"sz\":%d", sz) })
+	return sz
+}
+
+// seq wraps a sequence value: every pass over it is recorded with what it yielded and whether the consumer stopped it.
+func (r *verifRecorded[K, V]) seq(op string, args string, in iter.Seq2[K, V]) iter.Seq2[K, V] {
+	return func(yield func(K, V) bool) {
+		var ks, vs []string
+		stopped := false
+		defer func() {
+			sz := r.in.Size()
+			r.line(op, func(sb *strings.Builder) {
+				sb.WriteString(args)
+				fmt.Fprintf(sb, ",\"keys\":[%s],\"vals\":[%s],\"stopped\":%v,\"sz\":%d", strings.Join(ks, ","), strings.Join(vs, ","), stopped, sz)
+			})
+		}()
+		in(func(k K, v V) bool {
+			ks = append(ks, strconv.Quote(r.kenc(k)))
+			vs = append(vs, strconv.Quote(verifVal(v)))
+			if !yield(k, v) {
+				stopped = true
+				return false
+			}
+			return true
+		})
+	}
+}
+
+func (r *verifRecorded[K, V]) All() iter.Seq2[K, V] {
+	return r.seq("All", "", r.in.All())
+}
+
+func (r *verifRecorded[K, V]) Backward() iter.Seq2[K, V] {
+	return r.seq("Backward", "", r.in.Backward())
+}
+
+func (r *verifRecorded[K, V]) Prefix(p K) iter.Seq2[K, V] {
+	return r.seq("Prefix", r.args(func(sb *strings.Builder) { r.key(sb, "p", p) }), r.in.Prefix(p))
+}
+
+func (r *verifRecorded[K, V]) TopK(n uint) iter.Seq2[K, V] {
+	return r.seq("TopK", fmt.Sprintf(",\"n\":%d", min(uint64(n), 1<<40)), r.in.TopK(n))
+}
+
+func (r *verifRecorded[K, V]) BottomK(n uint) iter.Seq2[K, V] {
+	return r.seq("BottomK", fmt.Sprintf(",\"n\":%d", min(uint64(n), 1<<40)), r.in.BottomK(n))
+}
+
+func (r *verifRecorded[K, V]) Range(a, b K) iter.Seq2[K, V] {
+	return r.seq("Range", r.args(func(sb *strings.Builder) { r.key(sb, "a", a); r.key(sb, "b", b) }), r.in.Range(a, b))
+}
